@@ -371,7 +371,7 @@ def build_case(rng, spec, is_fgg, ids):
         if 0 in shape:
             # an empty domain: the (empty) weights as a dense tensor of the right shape
             fac = fggs.FiniteFactor(doms, torch.zeros(shape, dtype=torch.get_default_dtype())); info["weights"].append("empty")
-            if any(n == 0 for n in shape[:-1]): info["zero_dim_then_more"] = True
+            if any(n == 0 for n in shape[:-1]): info["kinds"].add("empty-dim-then-more")
         elif c < 0.08:
             fac = fggs.ConstantFactor(doms, rng.choice([1.5, 2, math.inf, 0.0])); info["weights"].append("constant")
         elif c < 0.45:
@@ -740,8 +740,7 @@ def run(tier, seed):
         unused = unused_labels(spec)
         meta = dict(spec=gen.spec_jsonable(spec), ids=ids, is_fgg=is_fgg, json=j, info=dict(info, kinds=sorted(info["kinds"])),
                     unused_labels=[gen.el_name(spec, u) for u in unused],
-                    factor_on_unused_terminal=bool(info.get("factor_on_unused")),
-                    zero_dim_then_more=bool(info.get("zero_dim_then_more")))
+                    factor_on_unused_terminal=bool(info.get("factor_on_unused")))
         metas.append(meta); lives.append((g, extra))
         bump("ids", ids); bump("kind", "fgg" if is_fgg else "hrg")
         bump("start_arity", len(spec["elabels"][spec["start"]]["type"]))
@@ -885,8 +884,6 @@ def run(tier, seed):
                                             case=m, corr="C14_second_roundtrip_verbatim", call="fgg_to_json(json_to_fgg(j))"))
         if c == 0: continue
         key = None
-        if c == 4 and m["zero_dim_then_more"] and v[3][0] == "ObsFromErr" and v[3][1][1] == "ValueErr":
-            key = "finite_factor_with_empty_domain_followed_by_another_dimension"
         violations.append(Violation(FGG_CODES.get(c, "verdict %d" % c), case=dict(m, verdict=c), observed=v[3][0],
                                     oracle="hrg_iso_b / interp_same_b" if c < 10 else None,
                                     corr="C14_roundtrip_iso / corr:hrg_to_json,json_to_hrg,json_to_fgg (code %d)" % c,
@@ -934,7 +931,7 @@ def run(tier, seed):
                second_roundtrip_byte_compared=byte_checked, sum_product_compared=sp_done, sum_product_pattern_sensitive=len(sp_sensitive),
                sum_product_pattern_sensitive_sample=sp_sensitive[:1],
                streams=dict(grammar=len(vals), weights=len(wvals), patterned_tensors=len(pvals), malformed=len(mvals), sum_product=sp_done),
-               known_finding_predicates=["finite_factor_with_empty_domain_followed_by_another_dimension"],
+               known_finding_predicates=[],
                open_items=OPEN_ITEMS)
     return cov, violations
 
@@ -942,7 +939,6 @@ OPEN_ITEMS = [
     "completeness of the oracle hrg_iso_b is not proved (only soundness, C14_iso_oracle_sound): a rejected bijection does not by itself prove non-isomorphism; the harness first tries the bijection read off the code, then searches for any other one before handing a witness to the checker",
     "weights_to_json is modelled by its result (dense nested list of the denotation); PatternedTensor.__iter__/dim_to_dense are not modelled here (C06)",
     "'hence the same sum-product' presupposes that sum_product depends only on the denoted tensors (C06/C07); the check compares the round-tripped grammar with the densified original (always equal so far) and only counts/prints a NOTE where the patterned original differs (SumAxis(0, e, 0) vs e in unify)",
-    "C14_fgg_roundtrip keeps the guard factor_wf 'no empty dimension' because of the unrepaired defect F21 (the guard excludes every empty dimension, although only an empty dimension followed by another one fails)",
     "json.dumps acceptance is by construction of the model's json type (null/bool/int/float incl. infinities/str/list/dict with str keys); NaN weights are outside the model",
     "rounding of weight literals that are not exactly representable in the default dtype (float32) is not modelled; the generators use dyadic rationals",
 ]
@@ -990,7 +986,7 @@ def replay(path):
 
 MANIFEST = dict(
     level="proof",
-    text="Coq theorems about a Gallina model that follows fggs/formats.py statement by statement (as repaired by 2f3a5c1, fe13a06, 450bcaa): json_to_hrg(hrg_to_json g) is isomorphic to g for every well-formed g and every str() of the implicit ids (C14_roundtrip_iso); at the FGG level, through FGG.from_hrg, with equal domains and factors equal as dense tensors (C14_fgg_roundtrip; the only guard left, 'no empty dimension', is the unrepaired defect F21, refuted without it); with explicit ids the second round trip reproduces the JSON (C14_second_roundtrip, _verbatim); every attachment/external node number outside 0..n-1, negative ones included, is rejected with ValueError (C14_out_of_range_rejected, C14_out_of_range_is_ValueError); the strided to_dense of json_to_weights' result is the tensor the patterned specification denotes, with or without a 'vaxes' entry (C14_patterned_weights). The model is tied to /repo on every run by comparing JSON, grammars, dense weights and exception kinds exactly, and every implementation output is judged by the extracted oracles hrg_iso_b / spec_dense / has_oor (hrg_iso_b sound by C14_iso_oracle_sound; spec_dense is the definition C14_patterned_weights equates the model with).",
-    note="Trusted: Coq kernel + vm_compute, extraction (ExtrOcamlBasic) cross-checked against vm_compute on a sample and on the non-zero verdicts, the Python harness mapping live fggs objects to model values. weights_to_json is modelled by its dense result; json.dumps/loads run but are not modelled. Defects F10, F19, F20 found by this check were repaired in /repo (known_findings.json: fixed); F21 (new, not repaired) is reported as KNOWN-FINDING with a refutation witness in Coq.",
+    text="Coq theorems about a Gallina model that follows fggs/formats.py statement by statement (as repaired by 2f3a5c1, fe13a06, 450bcaa, 38f8bd3): json_to_hrg(hrg_to_json g) is isomorphic to g for every well-formed g and every str() of the implicit ids (C14_roundtrip_iso); at the FGG level, through FGG.from_hrg, with equal domains and factors equal as dense tensors (C14_fgg_roundtrip, for every well-formed FGG: unused labels and empty dimensions included); with explicit ids the second round trip reproduces the JSON (C14_second_roundtrip, _verbatim); every attachment/external node number outside 0..n-1, negative ones included, is rejected with ValueError (C14_out_of_range_rejected, C14_out_of_range_is_ValueError); the strided to_dense of json_to_weights' result is the tensor the patterned specification denotes, with or without a 'vaxes' entry (C14_patterned_weights). The model is tied to /repo on every run by comparing JSON, grammars, dense weights and exception kinds exactly, and every implementation output is judged by the extracted oracles hrg_iso_b / spec_dense / has_oor (hrg_iso_b sound by C14_iso_oracle_sound; spec_dense is the definition C14_patterned_weights equates the model with).",
+    note="Trusted: Coq kernel + vm_compute, extraction (ExtrOcamlBasic) cross-checked against vm_compute on a sample and on the non-zero verdicts, the Python harness mapping live fggs objects to model values. weights_to_json is modelled by its dense result; json.dumps/loads run but are not modelled. Defects F10, F19, F20 and F21 found by this check were repaired in /repo (known_findings.json: fixed; no known finding is left for C14); the behaviour before the repair of F21 is kept as *_old definitions with its refutation.",
     technique="Coq proof (model + theorems) + model/implementation correspondence with verified oracles",
     design_ref="DESIGN.md section 6, C14")
